@@ -144,6 +144,15 @@ def scenarios(tier):
     cc["raw"] = [third]
     cc["explored"] = tuple(cc["explored"]) + ("raw",)
     S.append(mk("pair-crowded-by-third-dev2", cc, dev_bound=2 if q else 3, max_depth=150))
+    # a reconnect whose WebSocket negotiation fails, around close()
+    ch = cfg("set", "same", "delegate", drops=(1, 0), fine=(0,), sends=1)
+    ch["hsfail"] = 1
+    ch["explored"] = tuple(ch["explored"]) + ("hsfail",)
+    S.append(mk("pair-same-fine0-drop1-hsfail-dev3", ch, dev_bound=3 if q else 4, max_depth=150))
+    ch2 = cfg("set", None, "deferred", drops=(1, 0))
+    ch2["hsfail"] = 1
+    ch2["explored"] = tuple(ch2["explored"]) + ("hsfail",)
+    S.append(mk("solo-set-drop1-hsfail", ch2, max_depth=80, max_states=400000))
     S.append(mk("solo-set-unwelcome", cfg("set", None, "deferred", drops=(1, 0), welcome={"error": "go away"}), max_depth=80))
     S.append(mk("pair-same-dev2-allfine", cfg("set", "same", "deferred", drops=(1, 1), fine=(0, 1), sends=1, srverr=1),
                 dev_bound=2, max_depth=150))
